@@ -140,7 +140,7 @@ def _combos(ctx):
     # goroutines, 2 = a pair of operations
     if ctx.quick():
         return [(2, 2, 2, 0, 39, 120), (2, 3, 2, 0, 26, 160), (4, 2, 4, 0, 39, 200), (16, 2, 16, 0, 26, 800),
-                (4, 2, 4, 1, 500, 200), (4, 2, 4, 2, 104, 200)]
+                (4, 2, 4, 1, 330, 200), (4, 2, 4, 2, 104, 200)]
     return [(2, 2, 2, 0, 300, 120), (2, 3, 2, 0, 210, 160), (3, 2, 3, 0, 150, 160), (4, 2, 2, 0, 150, 200),
             (4, 2, 4, 0, 210, 200), (4, 3, 4, 0, 120, 300), (16, 2, 4, 0, 60, 800), (16, 2, 16, 0, 120, 800),
             (4, 2, 4, 1, 1500, 200), (8, 2, 8, 1, 700, 400), (4, 2, 4, 2, 600, 200), (2, 3, 2, 2, 300, 160)]
@@ -543,7 +543,7 @@ def run(ctx):
     def adopt(c, font, **kw):
         c = dict(c)
         nid[0] += 1
-        c.update({"id": nid[0], "font": font, "repeat": 1, "fresh": False, "cold": False})
+        c.update({"id": nid[0], "font": font, "repeat": 1, "fresh": False, "cold": False, "loop_ms": 0})
         c.update(kw)
         st.cases[c["id"]] = c
         return c
@@ -554,12 +554,13 @@ def run(ctx):
     for i, c in enumerate(general):
         f = ids[i % len(ids)]
         warm[f].append(adopt(c, f, fresh=(i // len(ids)) % 2 == 0))   # every other case: a never used instance
+    rep_plain = ctx.pick(1, 4)
+    loop_ms = ctx.pick(12, 30)
     for i, c in enumerate(pairs):
         f = ids[i % len(ids)]
         warm[f].append(adopt(c, f, fresh=(i // len(ids)) % 2 == 1))
-    cold_ops = ("Write", "Layout", "MakeGlyphNames", "ExplainGsub", "ExplainGpos", "Subset", "AsCFFWrite",
-                "GetFontInfo", "GsubApply")
-    rep_plain = ctx.pick(6, 25)
+        plain[f].append(adopt(c, f, fresh=(i // len(ids)) % 2 == 0, repeat=rep_plain, loop_ms=loop_ms))
+    cold_ops = ("Write", "Layout", "MakeGlyphNames", "ExplainGsub", "Subset", "AsCFFWrite")
     missing = set()
     for f in ids:
         for op in st.fonts[f]["ops"]:
@@ -569,7 +570,7 @@ def run(ctx):
                 continue
             k = ids.index(f)
             warm[f].append(adopt(hs[k % len(hs)], f, fresh=True))
-            plain[f].append(adopt(hs[(k + 1) % len(hs)], f, fresh=True, repeat=rep_plain))
+            plain[f].append(adopt(hs[(k + 1) % len(hs)], f, fresh=True, repeat=rep_plain, loop_ms=loop_ms))
             if op in cold_ops or not ctx.quick():
                 coldp.append((f, op, [adopt(hs[(k + 2) % len(hs)], f, fresh=True, cold=True)]))
     if missing:
@@ -656,6 +657,19 @@ def run(ctx):
     ctx.cov["hammer_cases"] = sum(len(v) for v in plain.values())
     ctx.cov["cold_cases"] = len(coldp)
     ctx.cov["race_reports"] = nraces
+    # diagnostic only (the verdicts are TLC's): concurrent digests outside the run-alone digests of their process
+    raw = collections.Counter()
+    for k in order:
+        ref = collections.defaultdict(set)
+        for e in st_traces[k]:
+            if e["ev"] in ("seq", "alone"):
+                ref[e["op"]].add(e["digest"])
+            elif e["ev"] == "conc" and e["digest"] not in ref[e["op"]]:
+                raw["%s %s" % (k, e["op"])] += 1
+    ctx.cov["raw_result_mismatches"] = dict(raw)
+    if raw:
+        ctx.notes.append("concurrent results outside the run-alone results recorded in the same process (diagnostic "
+                         "count): %s" % json.dumps(dict(raw))[:1500])
     if st.skipped:
         ctx.notes.append("%d further rejected events were not reproduced individually (reproduction budget)" % st.skipped)
     if st.benign:
